@@ -618,6 +618,25 @@ def integration_search_gap(name, obs, emb, init, iterations, opts):
     return min(gaps) if gaps else None
 
 
+def rounding_sensitivity(name, obs, emb, init, iterations, opts, mask=None):
+    """'up to rounding' for an iterated map: EM can amplify rounding differences transiently by orders of magnitude (a class
+    passing through a near-collapse).  Returns max |posterior(run) - posterior(run on data perturbed by 1e-15 relative)|
+    (fixed PRNG), i.e. how much rounding itself makes this trajectory differ from itself; None if it cannot be measured."""
+    if name == 'cbmm':
+        return None
+    try:
+        prng = np.random.default_rng(12345)
+        o3 = None if obs is None else obs * (1 + 1e-15 * prng.standard_normal(obs.shape))
+        e3 = None if emb is None else emb * (1 + 1e-15 * prng.standard_normal(emb.shape))
+        a = fit(name, obs, emb, init, iterations, opts)
+        c = fit(name, o3, e3, init, iterations, opts)
+        d = float(np.max(np.abs(predict(name, a, obs, emb, mask=mask) - predict(name, c, o3, e3, mask=mask))))
+    except Exception as e:  # noqa
+        # the perturbed run is rejected as numerically singular where the original is not: rounding decides everything
+        return np.inf if numerical_rejection(e) else None
+    return d if np.isfinite(d) else None
+
+
 def all_perms(K):
     return [list(p) for p in itertools.permutations(range(K))]
 
